@@ -342,7 +342,7 @@ func propsTagged(m map[string]any) any {
 
 func featProj(f *geojson.Feature) any {
 	if f == nil {
-		return "nilfeature"
+		return map[string]any{"nil": true}
 	}
 	return map[string]any{"id": f.ID, "bbox": bboxProj(f.BBox), "geom": projGJ(f.Geometry), "props": propsTagged(f.Properties)}
 }
